@@ -1,15 +1,525 @@
-import OciModel.Mem
+/-
+C14 — immutable tags in `ocimem`.
+
+All theorems are for an arbitrary hash `H : Bytes → Bytes`. The only property of
+`H` ever used is an explicit hypothesis: "the tagged bytes have no second preimage"
+(`hnc`) in `tagged_manifest_retained(_run)` / `getTag_stable_of_no_second_preimage`,
+or its consequence of full collision-freeness (`hinj`) in `getTag_stable`.
+Helper lemmas live in `OciModel/MemImmutable.lean`; every state-machine theorem
+below is a corollary of `Mem.step_eff` (each operation changes each repository by
+one of seven `RepoStep`s).
+
+Summary (model with the retype rule, i.e. after the F19 fix)
+* T1 `tag_stable`, `tag_stable_run`, `resolveTag_stable`.
+* T2 `tagged_manifest_retained`, `_run`, `getTag_stable` (now the whole descriptor,
+  media type included, is stable); `Inv` preserved.
+* T3 `referenced_retained`, `referenced_manifest_retained`.
+* T4 `refersTo_iff_reach`, `taggedRefersTo_iff_reachable` (the fuel is never a
+  restriction, in any state), `reachable_retained`, `unreachable_deleted`.
+* T5 `nothing_tagged_changes`.
+* Retype rule: `retype_tagged_refused`, `retype_tagged_unchanged`.
+* Histories (false before the fix): `reachable_retained_run`,
+  `reachable_manifest_retained_run`, `reachable_delete_denied_run`,
+  `referenced_retained_run`, under `DecFunctional`/`ManOK` and collision-freeness on
+  the pushed manifest bytes.
+-/
+import OciModel.MemImmutable
+
 namespace OciModel.Props.C14
 open OciModel.Mem
 
+variable (H : Bytes → Bytes)
+
+/-! ### The mode itself -/
+
 /-- In immutable-tags mode `deleteTag` never changes the state. -/
-theorem deleteTag_immutable (H : Bytes → Bytes) (s : State) (h : s.immutableTags = true) (r t : Bytes) :
+theorem deleteTag_immutable (s : State) (h : s.immutableTags = true) (r t : Bytes) :
     (step H s (.deleteTag r t)).1 = s := by
   simp only [step]
   split
   · rfl
   · split
     · rfl
-    · simp [h]
+    · rfl
+
+/-- No operation changes the mode. -/
+theorem immutable_preserved (s : State) (op : Op) : (step H s op).1.immutableTags = s.immutableTags :=
+  Mem.immutable_preserved H s op
+
+theorem immutable_preserved_run (s : State) (ops : List Op) :
+    (run H s ops).1.immutableTags = s.immutableTags :=
+  Mem.immutable_preserved_run H s ops
+
+/-- The digest invariant (every stored blob/manifest sits under the hash of its
+bytes) holds initially and is preserved by every operation. -/
+theorem inv_init (imm : Bool) : Inv H (init imm) := Inv_init H imm
+
+theorem inv_preserved {s : State} (hinv : Inv H s) (op : Op) : Inv H (step H s op).1 := Inv_step H hinv op
+
+theorem inv_preserved_run {s : State} (hinv : Inv H s) (ops : List Op) : Inv H (run H s ops).1 :=
+  Inv_run H hinv ops
+
+/-! ### T1: a tag resolves to the same descriptor forever -/
+
+theorem tag_stable {s : State} (him : s.immutableTags = true) {r t : Bytes} {rp : Repo} {d : Desc}
+    (hg : getRepo s r = some rp) (ht : alookup t rp.tags = some d) (op : Op) :
+    ∃ rp', getRepo (step H s op).1 r = some rp' ∧ alookup t rp'.tags = some d :=
+  Eff.tag_stable H him (step_eff H s op) hg ht
+
+theorem tag_stable_run {s : State} (him : s.immutableTags = true) {r t : Bytes} {rp : Repo} {d : Desc}
+    (hg : getRepo s r = some rp) (ht : alookup t rp.tags = some d) (ops : List Op) :
+    ∃ rp', getRepo (run H s ops).1 r = some rp' ∧ alookup t rp'.tags = some d := by
+  have := run_induction H
+    (P := fun s => s.immutableTags = true ∧ ∃ rp', getRepo s r = some rp' ∧ alookup t rp'.tags = some d)
+    (fun s op ⟨him, rp', hg, ht⟩ => ⟨(immutable_preserved H s op).trans him, tag_stable H him hg ht op⟩)
+    s ⟨him, rp, hg, ht⟩ ops
+  exact this.2
+
+/-- In the property's words: once `resolveTag r t` has answered `d`, it answers `d`
+after every history. -/
+theorem resolveTag_stable {s s0 : State} (him : s.immutableTags = true) {r t : Bytes} {d : Desc}
+    (h : step H s (.resolveTag r t) = (s0, .okDesc d)) (ops : List Op) :
+    step H (run H s ops).1 (.resolveTag r t) = ((run H s ops).1, .okDesc d) := by
+  obtain ⟨rp, hg, ht⟩ := resolveTag_ok H h
+  obtain ⟨rp', hg', ht'⟩ := tag_stable_run H him hg ht ops
+  exact resolveTag_eq H hg' ht'
+
+/-! ### T2: the manifest a tag points at is retained -/
+
+/-- State predicate: tag `t` of repository `r` is `d` and the manifest stored under
+`d.digest` has the bytes `data` and the media type `mt`. -/
+def TaggedData (s : State) (r t : Bytes) (d : Desc) (data mt : Bytes) : Prop :=
+  ∃ rp b, getRepo s r = some rp ∧ alookup t rp.tags = some d ∧
+    alookup d.digest rp.manifests = some b ∧ b.data = data ∧ b.mediaType = mt
+
+/-- State predicate: tag `t` of repository `r` is `d` and a manifest of media type
+`mt` is stored under `d.digest`. -/
+def TaggedPresent (s : State) (r t : Bytes) (d : Desc) (mt : Bytes) : Prop :=
+  ∃ rp b, getRepo s r = some rp ∧ alookup t rp.tags = some d ∧
+    alookup d.digest rp.manifests = some b ∧ b.mediaType = mt
+
+/-- One step: the tag stays, a manifest stays under `d.digest` with the same media
+type (the retype rule), its bytes hash to `d.digest` (uses the digest invariant,
+which is itself preserved: `inv_preserved`), and if the stored bytes have no second
+preimage under `H` (in particular if `H` has no collisions at all) they are the
+same bytes. -/
+theorem tagged_manifest_retained {s : State} (him : s.immutableTags = true) (hinv : Inv H s)
+    {r t : Bytes} {rp : Repo} {d : Desc} {b : Blob}
+    (hg : getRepo s r = some rp) (ht : alookup t rp.tags = some d)
+    (hm : alookup d.digest rp.manifests = some b) (op : Op) :
+    ∃ rp' b', getRepo (step H s op).1 r = some rp' ∧ alookup t rp'.tags = some d ∧
+      alookup d.digest rp'.manifests = some b' ∧ H b'.data = d.digest ∧ b'.mediaType = b.mediaType ∧
+      ((∀ x, H x = H b.data → x = b.data) → b'.data = b.data) := by
+  obtain ⟨rp', b', hg', ht', hm', hor⟩ := Eff.tagged_manifest H him (step_eff H s op) hg ht hm
+  have hb : H b.data = d.digest := (hinv r rp hg).2 _ _ hm
+  have hb' : H b'.data = d.digest := (inv_preserved H hinv op r rp' hg').2 _ _ hm'
+  have hmt : b'.mediaType = b.mediaType := by
+    rcases hor with rfl | ⟨_, h⟩
+    · rfl
+    · exact h
+  exact ⟨rp', b', hg', ht', hm', hb', hmt, fun hnc => hnc _ (hb'.trans hb.symm)⟩
+
+/-- Without any assumption on `H` and without `Inv`: the tagged manifest stays
+present, with its media type. -/
+theorem tagged_present_run {s : State} (him : s.immutableTags = true) {r t : Bytes} {d : Desc} {mt : Bytes}
+    (h : TaggedPresent s r t d mt) (ops : List Op) : TaggedPresent (run H s ops).1 r t d mt := by
+  have := run_induction H (P := fun s => s.immutableTags = true ∧ TaggedPresent s r t d mt)
+    (fun s op ⟨him, rp, b, hg, ht, hm, hmt⟩ =>
+      ⟨(immutable_preserved H s op).trans him,
+        let ⟨rp', b', hg', ht', hm', hor⟩ := Eff.tagged_manifest H him (step_eff H s op) hg ht hm
+        ⟨rp', b', hg', ht', hm', by
+          rcases hor with rfl | ⟨_, h⟩
+          · exact hmt
+          · exact h.trans hmt⟩⟩)
+    s ⟨him, h⟩ ops
+  exact this.2
+
+/-- Histories: if the tagged bytes have no second preimage under `H`, the tagged
+manifest keeps its bytes and media type forever. -/
+theorem tagged_manifest_retained_run {s : State} (him : s.immutableTags = true) (hinv : Inv H s)
+    {r t : Bytes} {d : Desc} {data mt : Bytes} (hnc : ∀ x, H x = H data → x = data)
+    (h : TaggedData s r t d data mt) (ops : List Op) : TaggedData (run H s ops).1 r t d data mt := by
+  have := run_induction H
+    (P := fun s => s.immutableTags = true ∧ Inv H s ∧ TaggedData s r t d data mt)
+    (fun s op ⟨him, hinv, rp, b, hg, ht, hm, hd, hmt⟩ =>
+      ⟨(immutable_preserved H s op).trans him, inv_preserved H hinv op,
+        let ⟨rp', b', hg', ht', hm', _, hmt', hsame⟩ := tagged_manifest_retained H him hinv hg ht hm op
+        ⟨rp', b', hg', ht', hm', (hsame (hd ▸ hnc)).trans hd, hmt'.trans hmt⟩⟩)
+    s ⟨him, hinv, h⟩ ops
+  exact this.2.2
+
+/-- `getTag` keeps returning exactly the same descriptor and bytes, provided these
+bytes have no second preimage under `H`. -/
+theorem getTag_stable_of_no_second_preimage {s s0 : State} (him : s.immutableTags = true) (hinv : Inv H s)
+    {r t : Bytes} {desc : Desc} {data : Bytes} (hnc : ∀ x, H x = H data → x = data)
+    (h : step H s (.getTag r t) = (s0, .okRead desc data)) (ops : List Op) :
+    step H (run H s ops).1 (.getTag r t) = ((run H s ops).1, .okRead desc data) := by
+  obtain ⟨rp, d, b, hg, ht, hm, rfl, rfl⟩ := getTag_ok H h
+  obtain ⟨rp', b', hg', ht', hm', hd, hmt⟩ :=
+    tagged_manifest_retained_run H him hinv hnc ⟨rp, b, hg, ht, hm, rfl, rfl⟩ ops
+  rw [getTag_eq H hg' ht' hm', hd]
+  simp [descOf, hd, hmt]
+
+/-- In the property's words: with a collision-free `H`, once `getTag r t` has returned
+`desc` and `data` it returns the same `desc` (media type included, thanks to the
+retype rule) and `data` after every history. -/
+theorem getTag_stable {s s0 : State} (him : s.immutableTags = true) (hinv : Inv H s)
+    (hinj : ∀ x y, H x = H y → x = y) {r t : Bytes} {desc : Desc} {data : Bytes}
+    (h : step H s (.getTag r t) = (s0, .okRead desc data)) (ops : List Op) :
+    step H (run H s ops).1 (.getTag r t) = ((run H s ops).1, .okRead desc data) :=
+  getTag_stable_of_no_second_preimage H him hinv (fun x => hinj x data) h ops
+
+/-! ### T3: what a tagged manifest references directly cannot be deleted -/
+
+/-- Reachability at depth 2: tag → its manifest → one of the manifest's references. -/
+theorem taggedRefersTo_direct {rp : Repo} {t : Bytes} {d : Desc} {b : Blob} {ref : RefInfo}
+    (ht : alookup t rp.tags = some d) (hm : alookup d.digest rp.manifests = some b) (href : ref ∈ b.refs) :
+    taggedRefersTo rp ref.desc.digest = true :=
+  (taggedRefersTo_iff rp _).2 ⟨2, .step (mem_tagRefs ht) (.inl rfl) hm (.here href rfl)⟩
+
+/-- A blob referenced by a tagged manifest (any kind of reference; layers and config
+are kind 0) cannot be deleted: the call is `DENIED` and the state is unchanged. -/
+theorem referenced_retained {s : State} (him : s.immutableTags = true)
+    {r t : Bytes} {rp : Repo} {d : Desc} {b x : Blob} {ref : RefInfo}
+    (hg : getRepo s r = some rp) (ht : alookup t rp.tags = some d)
+    (hm : alookup d.digest rp.manifests = some b) (href : ref ∈ b.refs)
+    (hpres : alookup ref.desc.digest rp.blobs = some x) :
+    step H s (.deleteBlob r ref.desc.digest) = (s, .err "DENIED") :=
+  deleteBlob_denied H him hg hpres (taggedRefersTo_direct ht hm href)
+
+/-- The same for a manifest referenced by a tagged manifest (index entries are kind 1,
+subjects kind 2). -/
+theorem referenced_manifest_retained {s : State} (him : s.immutableTags = true)
+    {r t : Bytes} {rp : Repo} {d : Desc} {b x : Blob} {ref : RefInfo}
+    (hg : getRepo s r = some rp) (ht : alookup t rp.tags = some d)
+    (hm : alookup d.digest rp.manifests = some b) (href : ref ∈ b.refs)
+    (hpres : alookup ref.desc.digest rp.manifests = some x) :
+    step H s (.deleteManifest r ref.desc.digest) = (s, .err "DENIED") :=
+  deleteManifest_denied H him hg hpres (taggedRefersTo_direct ht hm href)
+
+/-! ### T4: transitive references -/
+
+/-- `refersTo` is exactly depth-bounded reachability. -/
+theorem refersTo_iff_reach (rp : Repo) (target : Bytes) (fuel : Nat) (refs : List RefInfo) :
+    refersTo rp target fuel refs = true ↔ Reach rp fuel refs target :=
+  Mem.refersTo_iff_reach rp target fuel refs
+
+/-- The fuel `manifests.length + 2` is never a restriction, in any state whatsoever:
+the check equals reachability at *any* depth. (A shortest reference path visits each
+stored manifest at most once; cycles, e.g. through dangling subjects, do no harm.) -/
+theorem taggedRefersTo_iff_reachable (rp : Repo) (target : Bytes) :
+    taggedRefersTo rp target = true ↔ ReachU rp (tagRefs rp) target :=
+  taggedRefersTo_iff rp target
+
+/-- Whatever is reachable from a tag, at any depth, through stored manifests cannot
+be deleted. -/
+theorem reachable_retained {s : State} (him : s.immutableTags = true) {r x : Bytes} {rp : Repo} {bx : Blob}
+    (hg : getRepo s r = some rp) (hreach : ReachU rp (tagRefs rp) x)
+    (hpres : alookup x rp.blobs = some bx) :
+    step H s (.deleteBlob r x) = (s, .err "DENIED") :=
+  deleteBlob_denied H him hg hpres ((taggedRefersTo_iff rp x).2 hreach)
+
+theorem reachable_manifest_retained {s : State} (him : s.immutableTags = true) {r x : Bytes} {rp : Repo}
+    {bx : Blob} (hg : getRepo s r = some rp) (hreach : ReachU rp (tagRefs rp) x)
+    (hpres : alookup x rp.manifests = some bx) :
+    step H s (.deleteManifest r x) = (s, .err "DENIED") :=
+  deleteManifest_denied H him hg hpres ((taggedRefersTo_iff rp x).2 hreach)
+
+/-- Conversely the protection is exact: a stored blob that is not reachable from any
+tag is deleted. -/
+theorem unreachable_deleted {s : State} {r x : Bytes} {rp : Repo} {bx : Blob}
+    (hg : getRepo s r = some rp) (hunreach : ¬ ReachU rp (tagRefs rp) x)
+    (hpres : alookup x rp.blobs = some bx) :
+    step H s (.deleteBlob r x) = (putRepo s r { rp with blobs := aerase x rp.blobs }, .okUnit) := by
+  refine deleteBlob_allowed H hg hpres ?_
+  cases h : taggedRefersTo rp x with
+  | false => rfl
+  | true => exact absurd ((taggedRefersTo_iff rp x).1 h) hunreach
+
+/-! ### T5: pushing to an existing tag changes nothing -/
+
+/-- In immutable mode `pushManifest` to an existing tag either fails or returns the
+*existing* descriptor (only when digest and media type both agree); either way the
+whole state — tags, manifests, blobs, uploads — is unchanged. (`t ≠ []`: the empty
+tag means "push untagged"; no valid tag is empty.) -/
+theorem nothing_tagged_changes {s : State} (him : s.immutableTags = true) {r t : Bytes} {rp : Repo}
+    {cur : Desc} (hg : getRepo s r = some rp) (ht : alookup t rp.tags = some cur) (hne : t ≠ [])
+    (data mt : Bytes) (dec : Decoded) :
+    (∃ e, step H s (.pushManifest r t data mt dec) = (s, .err e)) ∨
+    (step H s (.pushManifest r t data mt dec) = (s, .okDesc cur) ∧ cur.digest = H data ∧ cur.mediaType = mt) :=
+  pushManifest_existing_tag H him hg ht hne data mt dec
+
+/-! ### The retype rule
+
+Before the fix, pushing the bytes of a tagged manifest again — untagged, or under a
+fresh tag — with another media type overwrote `manifests[digest]`; references are
+decoded under the *stored* media type, so an unknown media type made the tagged
+manifest reference nothing and its layers became deletable. Now such a push is
+refused. -/
+
+/-- In immutable mode a manifest stored under a digest reachable from a tag cannot be
+re-stored under another media type (untagged, or under a fresh valid tag): the call
+is `DENIED` and nothing changes. -/
+theorem retype_tagged_refused {s : State} (him : s.immutableTags = true) {r t : Bytes} {rp : Repo}
+    {b0 : Blob} (hg : getRepo s r = some rp) (hr : Ref.isRepo r = true) {data mt : Bytes}
+    (hm : alookup (H data) rp.manifests = some b0) (hmt : b0.mediaType ≠ mt)
+    (hreach : ReachU rp (tagRefs rp) (H data))
+    (hfresh : t = [] ∨ (Ref.isTag t = true ∧ alookup t rp.tags = none)) (dec : Decoded) :
+    step H s (.pushManifest r t data mt dec) = (s, .err "DENIED") :=
+  pushManifest_retype_refused H him hg hr hm hmt ((taggedRefersTo_iff rp _).2 hreach) hfresh dec
+
+/-- Whatever the tag argument, such a push leaves the state unchanged. -/
+theorem retype_tagged_unchanged {s : State} (him : s.immutableTags = true) {r t : Bytes} {rp : Repo}
+    {b0 : Blob} (hg : getRepo s r = some rp) {data mt : Bytes}
+    (hm : alookup (H data) rp.manifests = some b0) (hmt : b0.mediaType ≠ mt)
+    (hreach : ReachU rp (tagRefs rp) (H data)) (dec : Decoded) :
+    (step H s (.pushManifest r t data mt dec)).1 = s :=
+  pushManifest_retype_unchanged H him hg hm hmt ((taggedRefersTo_iff rp _).2 hreach) dec
+
+/-! ### Retention over histories
+
+What is reachable from a tag and stored stays reachable and stored after every
+history. Hypotheses that are about the environment, not the registry:
+
+* `DecFunctional decOf D ops`: every `pushManifest _ _ data mt dec` in `ops` has
+  `dec = decOf data mt` (the harness decodes with the real JSON decoder, a function
+  of bytes and media type) and `D data`; and `ManOK decOf D s`: the stored manifests
+  of the starting state agree with `decOf` and lie in `D` (true of `init`, preserved);
+* `hinj`: `H` has no collisions among the manifest byte strings in `D`
+  (`D := fun _ => True` is plain collision-freeness). With a collision, other bytes
+  could be stored under the same digest and media type, with other references.
+-/
+
+/-- Every manifest push in `ops` takes its decoding from `decOf` and its bytes from `D`. -/
+def DecFunctional (decOf : Bytes → Bytes → Decoded) (D : Bytes → Prop) (ops : List Op) : Prop :=
+  ∀ op, op ∈ ops → OpOK decOf D op
+
+theorem manOK_init (decOf : Bytes → Bytes → Decoded) (D : Bytes → Prop) (imm : Bool) :
+    ManOK decOf D (init imm) := ManOK_init decOf D imm
+
+theorem manOK_preserved_run (decOf : Bytes → Bytes → Decoded) (D : Bytes → Prop) {s : State}
+    (hok : ManOK decOf D s) {ops : List Op} (hops : DecFunctional decOf D ops) :
+    ManOK decOf D (run H s ops).1 :=
+  run_induction_ops H (P := ManOK decOf D) (Q := OpOK decOf D)
+    (fun _ _ hop h => ManOK_step H decOf D hop h) s hok ops hops
+
+/-- `x` is reachable from the tags of repository `r` and stored there as a blob. -/
+def ReachableBlob (s : State) (r x : Bytes) : Prop :=
+  ∃ rp b, getRepo s r = some rp ∧ ReachU rp (tagRefs rp) x ∧ alookup x rp.blobs = some b ∧ H b.data = x
+
+/-- `x` is reachable from the tags of repository `r` and stored there as the manifest
+with these bytes, media type and references. -/
+def ReachableManifest (s : State) (r x data mt : Bytes) (refs : List RefInfo) : Prop :=
+  ∃ rp b, getRepo s r = some rp ∧ ReachU rp (tagRefs rp) x ∧ alookup x rp.manifests = some b ∧
+    b.data = data ∧ b.mediaType = mt ∧ b.refs = refs
+
+section
+variable (decOf : Bytes → Bytes → Decoded) (D : Bytes → Prop)
+
+/-- The invariant carried through a history. -/
+private def Good (s : State) : Prop := s.immutableTags = true ∧ Inv H s ∧ ManOK decOf D s
+
+private theorem Good.step {s : State} {op : Op} (hop : OpOK decOf D op) (h : Good H decOf D s) :
+    Good H decOf D (step H s op).1 :=
+  ⟨(immutable_preserved H s op).trans h.1, inv_preserved H h.2.1 op, ManOK_step H decOf D hop h.2.2⟩
+
+/-- **Transitive retention, blobs.** A stored blob reachable from a tag (at any depth)
+is, after every history, still stored under its digest, still hashing to it, and
+still reachable from the tags. -/
+theorem reachable_retained_run {s : State} (him : s.immutableTags = true) (hinv : Inv H s)
+    (hok : ManOK decOf D s) (hinj : ∀ a b, D a → D b → H a = H b → a = b) {r x : Bytes}
+    (h : ReachableBlob H s r x) {ops : List Op} (hops : DecFunctional decOf D ops) :
+    ReachableBlob H (run H s ops).1 r x := by
+  have := run_induction_ops H (P := fun s => Good H decOf D s ∧ ReachableBlob H s r x) (Q := OpOK decOf D)
+    (fun s op hop ⟨hgood, rp, b, hg, hreach, hb, _⟩ => by
+      obtain ⟨rp', hg', hreach', hblob, _⟩ := Eff.reach_retained H decOf D hgood.1 hgood.2.1 hgood.2.2 hop hinj
+        (step_eff H s op) hg hreach
+      obtain ⟨b', hb'⟩ := hblob b hb
+      have hgood' := Good.step H decOf D hop hgood
+      exact ⟨hgood', rp', b', hg', hreach', hb', (hgood'.2.1 r rp' hg').1 _ _ hb'⟩)
+    s ⟨⟨him, hinv, hok⟩, h⟩ ops hops
+  exact this.2
+
+/-- **Transitive retention, manifests.** A stored manifest reachable from a tag keeps
+its bytes, media type and references, and stays reachable, after every history. -/
+theorem reachable_manifest_retained_run {s : State} (him : s.immutableTags = true) (hinv : Inv H s)
+    (hok : ManOK decOf D s) (hinj : ∀ a b, D a → D b → H a = H b → a = b) {r x data mt : Bytes}
+    {refs : List RefInfo} (h : ReachableManifest s r x data mt refs) {ops : List Op}
+    (hops : DecFunctional decOf D ops) :
+    ReachableManifest (run H s ops).1 r x data mt refs := by
+  have := run_induction_ops H (P := fun s => Good H decOf D s ∧ ReachableManifest s r x data mt refs)
+    (Q := OpOK decOf D)
+    (fun s op hop ⟨hgood, rp, b, hg, hreach, hb, hd, hmt, hrefs⟩ => by
+      obtain ⟨rp', hg', hreach', _, hman⟩ := Eff.reach_retained H decOf D hgood.1 hgood.2.1 hgood.2.2 hop hinj
+        (step_eff H s op) hg hreach
+      obtain ⟨b', hb', hd', hmt', hrefs'⟩ := hman b hb
+      exact ⟨Good.step H decOf D hop hgood, rp', b', hg', hreach', hb', hd'.trans hd, hmt'.trans hmt,
+        hrefs'.trans hrefs⟩)
+    s ⟨⟨him, hinv, hok⟩, h⟩ ops hops
+  exact this.2
+
+/-- Hence the delete stays refused after every history. -/
+theorem reachable_delete_denied_run {s : State} (him : s.immutableTags = true) (hinv : Inv H s)
+    (hok : ManOK decOf D s) (hinj : ∀ a b, D a → D b → H a = H b → a = b) {r x : Bytes}
+    (h : ReachableBlob H s r x) {ops : List Op} (hops : DecFunctional decOf D ops) :
+    step H (run H s ops).1 (.deleteBlob r x) = ((run H s ops).1, .err "DENIED") := by
+  obtain ⟨rp', b', hg', hreach', hb', _⟩ := reachable_retained_run H decOf D him hinv hok hinj h hops
+  exact reachable_retained H ((immutable_preserved_run H s ops).trans him) hg' hreach' hb'
+
+/-- **Direct references** (depth 2), in the words of T3: a blob referenced by a tagged
+manifest and stored is, after every history, still stored, and deleting it is
+still `DENIED`. -/
+theorem referenced_retained_run {s : State} (him : s.immutableTags = true) (hinv : Inv H s)
+    (hok : ManOK decOf D s) (hinj : ∀ a b, D a → D b → H a = H b → a = b)
+    {r t : Bytes} {rp : Repo} {d : Desc} {b x : Blob} {ref : RefInfo}
+    (hg : getRepo s r = some rp) (ht : alookup t rp.tags = some d)
+    (hm : alookup d.digest rp.manifests = some b) (href : ref ∈ b.refs)
+    (hpres : alookup ref.desc.digest rp.blobs = some x) {ops : List Op} (hops : DecFunctional decOf D ops) :
+    (∃ x', blobFor (run H s ops).1 r ref.desc.digest = .ok x' ∧ H x'.data = ref.desc.digest) ∧
+    step H (run H s ops).1 (.deleteBlob r ref.desc.digest) = ((run H s ops).1, .err "DENIED") := by
+  have hrb : ReachableBlob H s r ref.desc.digest :=
+    ⟨rp, x, hg, (taggedRefersTo_iff rp _).1 (taggedRefersTo_direct ht hm href), hpres, (hinv r rp hg).1 _ _ hpres⟩
+  refine ⟨?_, reachable_delete_denied_run H decOf D him hinv hok hinj hrb hops⟩
+  obtain ⟨rp', b', hg', _, hb', hh⟩ := reachable_retained_run H decOf D him hinv hok hinj hrb hops
+  exact ⟨b', by simp [blobFor, hg', hb'], hh⟩
+
+end
+
+/-! ### Concrete witnesses
+
+A registry in immutable mode holding repository `foo` with one layer blob, one
+image manifest referencing it, and the tag `v1`; built from `init true` by two
+pushes. `Hc` is a toy hash with well-formed `sha256:` output (the last hex digit
+is the length of the input), so that pushes are accepted. -/
+
+namespace Witness
+
+def Hc (data : Bytes) : Bytes :=
+  Ref.sha256 ++ 58 :: (List.replicate 63 48 ++ [48 + UInt8.ofNat (data.length % 10)])
+
+def r0 : Bytes := [102, 111, 111]          -- "foo"
+def tag0 : Bytes := [118, 49]              -- "v1"
+def layer : Bytes := [1]
+def mdata : Bytes := [1, 2]
+def mtLayer : Bytes := [108]
+def mtImage : Bytes := [105]
+def mtOther : Bytes := [111]
+def layerDesc : Desc := ⟨mtLayer, Hc layer, 1⟩
+def mDesc : Desc := ⟨mtImage, Hc mdata, 2⟩
+def mBlob : Blob := ⟨mtImage, mdata, [], [⟨0, layerDesc⟩]⟩
+def lBlob : Blob := ⟨mtLayer, layer, [], []⟩
+
+def rpA : Repo := ⟨[(tag0, mDesc)], [(Hc mdata, mBlob)], [(Hc layer, lBlob)], []⟩
+def sA : State := ⟨true, [(r0, rpA)], 0⟩
+
+def setup : List Op :=
+  [.pushBlob r0 layerDesc layer, .pushManifest r0 tag0 mdata mtImage (.refs [⟨0, layerDesc⟩])]
+
+/-- `sA` is reachable from the empty registry; both pushes succeed. -/
+theorem sA_reachable : run Hc (init true) setup = (sA, [.okDesc layerDesc, .okDesc mDesc]) := by decide
+
+theorem sA_immutable : sA.immutableTags = true := rfl
+theorem sA_repo : getRepo sA r0 = some rpA := by decide
+theorem sA_tag : alookup tag0 rpA.tags = some mDesc := by decide
+theorem sA_manifest : alookup mDesc.digest rpA.manifests = some mBlob := by decide
+theorem sA_ref : (⟨0, layerDesc⟩ : RefInfo) ∈ mBlob.refs := by decide
+theorem sA_layer : alookup layerDesc.digest rpA.blobs = some lBlob := by decide
+
+theorem sA_inv : Inv Hc sA := by
+  have := inv_preserved_run Hc (inv_init Hc true) setup
+  rwa [sA_reachable] at this
+
+/-- T1 on `sA`: the tag survives every operation. -/
+example (op : Op) : ∃ rp', getRepo (step Hc sA op).1 r0 = some rp' ∧ alookup tag0 rp'.tags = some mDesc :=
+  tag_stable Hc sA_immutable sA_repo sA_tag op
+
+example (ops : List Op) : step Hc (run Hc sA ops).1 (.resolveTag r0 tag0) = ((run Hc sA ops).1, .okDesc mDesc) :=
+  resolveTag_stable Hc sA_immutable (s0 := sA) (by decide) ops
+
+/-- T2 on `sA` (all hypotheses but the collision one). -/
+example (op : Op) : ∃ rp' b', getRepo (step Hc sA op).1 r0 = some rp' ∧ alookup tag0 rp'.tags = some mDesc ∧
+    alookup mDesc.digest rp'.manifests = some b' ∧ Hc b'.data = mDesc.digest ∧ b'.mediaType = mBlob.mediaType ∧
+    ((∀ x, Hc x = Hc mBlob.data → x = mBlob.data) → b'.data = mBlob.data) :=
+  tagged_manifest_retained Hc sA_immutable sA_inv sA_repo sA_tag sA_manifest op
+
+/-- T3 on `sA`: the layer cannot be deleted. -/
+theorem sA_layer_protected : step Hc sA (.deleteBlob r0 layerDesc.digest) = (sA, .err "DENIED") :=
+  referenced_retained Hc sA_immutable sA_repo sA_tag sA_manifest sA_ref sA_layer
+
+/-- T4 on `sA`: the layer is reachable from the tags. -/
+theorem sA_layer_reachable : ReachU rpA (tagRefs rpA) layerDesc.digest :=
+  ⟨2, .step (mem_tagRefs sA_tag) (.inl rfl) sA_manifest (.here sA_ref rfl)⟩
+
+/-- T5 on `sA`: pushing other bytes to `v1` is refused, pushing the same is a no-op. -/
+example : step Hc sA (.pushManifest r0 tag0 [9, 9, 9] mtImage .opaque) = (sA, .err "DENIED") := by decide
+example : step Hc sA (.pushManifest r0 tag0 mdata mtImage .opaque) = (sA, .okDesc mDesc) := by decide
+
+/-! The collision-freeness hypothesis is satisfiable together with `Inv` on a
+non-trivial state: take `H := id` (no `sha256:` syntax, so this state is not built
+by pushes; it only shows the hypotheses of `getTag_stable` are consistent). -/
+
+def rpI : Repo := ⟨[(tag0, ⟨mtImage, mdata, 2⟩)], [(mdata, ⟨mtImage, mdata, [], [⟨0, ⟨mtLayer, layer, 1⟩⟩]⟩)],
+  [(layer, lBlob)], []⟩
+def sI : State := ⟨true, [(r0, rpI)], 0⟩
+
+theorem sI_inv : Inv id sI := by
+  intro r rp h
+  simp only [sI, getRepo, alookup] at h
+  split at h
+  · cases h
+    constructor <;> intro k b hk <;> simp only [rpI, alookup] at hk <;> split at hk <;> cases hk <;>
+      (subst_vars; rfl)
+  · cases h
+
+example (ops : List Op) : step id (run id sI ops).1 (.getTag r0 tag0) =
+      ((run id sI ops).1, .okRead ⟨mtImage, mdata, 2⟩ mdata) :=
+  getTag_stable id (s := sI) (s0 := sI) rfl sI_inv (fun _ _ h => h) (by decide) ops
+
+/-! #### The former defect (F19) is gone -/
+
+/-- The attack: re-push the tagged manifest's bytes, untagged, under another media type. -/
+def repush : Op := .pushManifest r0 [] mdata mtOther .opaque
+
+/-- It is now refused, and nothing changes. -/
+theorem repush_refused : step Hc sA repush = (sA, .err "DENIED") :=
+  retype_tagged_refused Hc sA_immutable sA_repo (by decide) (b0 := mBlob) (by decide) (by decide)
+    ⟨1, .here (mem_tagRefs sA_tag) rfl⟩ (.inl rfl) .opaque
+
+/-- The same under a fresh tag. -/
+example : step Hc sA (.pushManifest r0 [118, 50] mdata mtOther .opaque) = (sA, .err "DENIED") :=
+  retype_tagged_refused Hc sA_immutable sA_repo (by decide) (b0 := mBlob) (by decide) (by decide)
+    ⟨1, .here (mem_tagRefs sA_tag) rfl⟩ (.inr ⟨by decide, by decide⟩) .opaque
+
+/-- A decoder for the witness: the image manifest bytes under the image media type
+reference the layer; everything else is opaque. `DW`: the only manifest bytes. -/
+def decOfW (data mt : Bytes) : Decoded :=
+  if data = mdata ∧ mt = mtImage then .refs [⟨0, layerDesc⟩] else .opaque
+def DW (data : Bytes) : Prop := data = mdata
+
+theorem setup_functional : DecFunctional decOfW DW setup := by
+  intro op hop
+  simp only [setup, List.mem_cons, List.not_mem_nil, or_false] at hop
+  rcases hop with rfl | rfl
+  · trivial
+  · exact ⟨rfl, by decide⟩
+
+theorem sA_manOK : ManOK decOfW DW sA := by
+  have := manOK_preserved_run Hc decOfW DW (manOK_init decOfW DW true) setup_functional
+  rwa [sA_reachable] at this
+
+/-- The hypotheses of the history theorems are satisfiable on `sA`, with the attack in
+the history: after `repush :: ops` the layer is still there and still protected. -/
+example (ops : List Op) (hops : DecFunctional decOfW DW ops) :
+    (∃ x', blobFor (run Hc sA (repush :: ops)).1 r0 layerDesc.digest = .ok x' ∧ Hc x'.data = layerDesc.digest) ∧
+    step Hc (run Hc sA (repush :: ops)).1 (.deleteBlob r0 layerDesc.digest) =
+      ((run Hc sA (repush :: ops)).1, .err "DENIED") :=
+  referenced_retained_run Hc decOfW DW sA_immutable sA_inv sA_manOK (fun _ _ ha hb _ => ha.trans hb.symm)
+    sA_repo sA_tag sA_manifest sA_ref sA_layer
+    (fun op hop => by
+      rcases List.mem_cons.1 hop with rfl | h
+      · exact ⟨rfl, by decide⟩
+      · exact hops op h)
+
+end Witness
 
 end OciModel.Props.C14
